@@ -72,6 +72,12 @@ pub struct Case {
     pub env: Vec<(String, String)>,
     /// file name of the planned file inside its per-run directory ("" = cases.txt)
     pub file_name: String,
+    /// what fstat(0) reports for stdin: 0 as the kernel says, 1 regular file, 2 fifo, 3 character device, 4 socket
+    pub stdin_kind: u8,
+    /// name the planned file relative to the working directory (the process is started in the file's directory)
+    pub relative_path: bool,
+    /// working directory of the process (set by `materialise`)
+    pub cwd: Option<String>,
     pub note: String,
 }
 
@@ -83,7 +89,7 @@ impl Case {
             "path": self.path, "file_hex": hex(&self.file), "file_text": String::from_utf8_lossy(&self.file[..self.file.len().min(200)]),
             "file_mode": match self.file_mode { FileMode::Memfd => "memfd", FileMode::Absent => "absent", FileMode::RealDir => "realdir", FileMode::RealFs => "realfs", FileMode::None => "none" },
             "env": self.env.iter().map(|(k, v)| json!([k, v])).collect::<Vec<_>>(),
-            "file_name": self.file_name,
+            "file_name": self.file_name, "stdin_kind": self.stdin_kind, "relative_path": self.relative_path,
             "tty": self.tty, "tty_out": self.tty_out, "seed": self.seed.to_string(),
             "events": self.events.iter().map(|(c, k, a)| json!([c, k, a])).collect::<Vec<_>>(),
             "dchunk": self.dchunk.iter().map(|(c, n)| json!([c, n])).collect::<Vec<_>>(),
@@ -142,6 +148,9 @@ impl Case {
                 })
                 .unwrap_or_default(),
             file_name: v.get("file_name").and_then(|x| x.as_str()).unwrap_or("").to_string(),
+            stdin_kind: v.get("stdin_kind").and_then(|x| x.as_u64()).unwrap_or(0) as u8,
+            relative_path: v.get("relative_path").and_then(|x| x.as_bool()).unwrap_or(false),
+            cwd: None,
             note: v.get("note").and_then(|x| x.as_str()).unwrap_or("").to_string(),
         })
     }
@@ -152,6 +161,9 @@ impl Case {
         p.push_str(&format!("tty {}\n", self.tty));
         if self.tty_out {
             p.push_str("tty1 1\ntty2 1\n");
+        }
+        if self.stdin_kind > 0 {
+            p.push_str(&format!("stdinkind {}\n", self.stdin_kind));
         }
         p.push_str(&format!("stdin {}\n", hex(&self.stdin)));
         match self.file_mode {
@@ -227,7 +239,10 @@ pub const PLANNED_PATH: &str = "/nonexistent-simenv/inputs/cases.txt";
 /// Puts the planned file system object in place and returns the case with the real path substituted.
 pub fn materialise(case: &Case, bins: &Binaries, slot: usize) -> Result<Case, String> {
     let dir = format!("{}/w{:02}", bins.scratch, slot);
-    let real = format!("{}/{}", dir, if case.file_name.is_empty() { "cases.txt" } else { case.file_name.as_str() });
+    let name = if case.file_name.is_empty() { "cases.txt" } else { case.file_name.as_str() };
+    // a relative name is resolved against the working directory, which run_case sets to the slot directory
+    let real = if case.relative_path { name.to_string() } else { format!("{}/{}", dir, name) };
+    let on_disk = format!("{}/{}", dir, name);
     let _ = std::fs::remove_dir_all(&dir);
     std::fs::create_dir_all(&dir).map_err(|e| format!("{}: {}", dir, e))?;
     let mut c = case.clone();
@@ -240,10 +255,11 @@ pub fn materialise(case: &Case, bins: &Binaries, slot: usize) -> Result<Case, St
         c.path = real.clone();
     }
     match c.file_mode {
-        FileMode::Memfd | FileMode::RealFs => std::fs::write(&c.path, &c.file).map_err(|e| format!("{}: {}", c.path, e))?,
-        FileMode::RealDir => std::fs::create_dir_all(&c.path).map_err(|e| format!("{}: {}", c.path, e))?,
+        FileMode::Memfd | FileMode::RealFs => std::fs::write(&on_disk, &c.file).map_err(|e| format!("{}: {}", on_disk, e))?,
+        FileMode::RealDir => std::fs::create_dir_all(&on_disk).map_err(|e| format!("{}: {}", on_disk, e))?,
         FileMode::Absent | FileMode::None => {}
     }
+    c.cwd = Some(dir);
     Ok(c)
 }
 
@@ -258,7 +274,11 @@ pub fn run_in_slot(case: &Case, bins: &Binaries, timeout_s: u64, slot: usize) ->
 
 pub fn run_case(case: &Case, bins: &Binaries, timeout_s: u64) -> Result<Observed, String> {
     let exe = if case.target == "probe" { &bins.probe } else { &bins.grex };
-    let mut child = Command::new(exe)
+    let mut cmd = Command::new(exe);
+    if let Some(d) = &case.cwd {
+        cmd.current_dir(d);
+    }
+    let mut child = cmd
         .args(&case.argv)
         .env_clear()
         .envs(case.env.iter().map(|(k, v)| (k.clone(), v.clone())))
